@@ -91,6 +91,7 @@ impl<T: Clone + Copy + Number + Signed + std::cmp::PartialOrd> Matrix<T> {
                 self.swap_rows( i, imax );
                 pivots += 1;
             } 
+            if max_a == T::zero() { continue; } // singular: the whole sub-column is zero, nothing to eliminate
             for j in i+1..self.rows() {
                 let ii = self[(i,i)];
                 self[(j,i)] /= ii;
